@@ -35,8 +35,9 @@ VARIABLES applied,      \* applied[a] \in 0..1     evolutions already recorded
           newm,         \* newm[a] \in BOOLEAN     the app has new models to create
           after,        \* after \subseteq Apps \X Apps : <<a, b>> a declares AFTER_EVOLUTIONS = [b]
           before,       \* before \subseteq Apps \X Apps : a declares BEFORE_EVOLUTIONS = [b]
-          eafter,       \* eafter \subseteq Apps \X (Apps \X Nat): first pending evolution of a
-                        \*   declares AFTER_EVOLUTIONS = [(b, i)]
+          eafter,       \* set of <<a, <<b, i>>, k>>: the k-th pending evolution of a declares
+                        \*   AFTER_EVOLUTIONS = [(b, i)]  (i = 0: the bare app label b); the exhaustive
+                        \*   scope has k = 1 and i >= 1, sampled projects (FromFile) anything
           ord,          \* result of get_ordered() on the project's graph (computed once)
           exe           \* the executed order of pending units
 
@@ -58,7 +59,7 @@ ProjInit == /\ applied \in [Apps -> 0..1]
         /\ after \in SUBSET Pairs
         /\ before \in SUBSET Pairs
         /\ Cardinality(after) + Cardinality(before) <= 2
-        /\ eafter \in SUBSET { <<a, <<b, i>>>> : a \in Apps, b \in Apps, i \in 1..(1 + MaxPending) }
+        /\ eafter \in SUBSET { <<a, <<b, i>>, 1>> : a \in Apps, b \in Apps, i \in 1..(1 + MaxPending) }
         /\ Cardinality(eafter) <= 1
         /\ \A e \in eafter : e[1] # e[2][1] /\ pending[e[1]] > 0
                               /\ e[2][2] <= applied[e[2][1]] + pending[e[2][1]]
@@ -91,7 +92,8 @@ AppDeps(a) ==
     ELSE { <<<<"first", a>>, <<"last", p[2]>>>> : p \in { q \in after : q[1] = a } }
          \cup { <<<<"first", p[2]>>, <<"last", a>>>> : p \in { q \in before : q[1] = a } }
 EvoDeps ==
-    { <<<<"evo", e[1], applied[e[1]] + 1>>, <<"evo", e[2][1], e[2][2]>>>> : e \in eafter }
+    { <<<<"evo", e[1], applied[e[1]] + e[3]>>,
+        IF e[2][2] = 0 THEN <<"last", e[2][1]>> ELSE <<"evo", e[2][1], e[2][2]>>>> : e \in eafter }
 PendingDeps == UNION { Chain(a) \cup AppDeps(a) : a \in Apps } \cup EvoDeps
 
 (* mark_evolutions_applied: for each task whose app has applied evolutions, drop
@@ -155,28 +157,32 @@ TaskOrder(es, seen) == IF es = <<>> THEN <<>>
 RECURSIVE ByTask(_, _)
 ByTask(tasks, es) == IF tasks = <<>> THEN <<>>
                      ELSE SelectSeq(es, LAMBDA n : n[2] = Head(tasks)) \o ByTask(Tail(tasks), es)
-(* As repaired (f0a63a3): when the order puts another task's evolution between two evolutions of
-   one task, the run of evolutions is cut there - everything from the second one on goes into
+(* As repaired (f0a63a3 and its follow-up): when the order puts another task's evolution between two
+   evolutions of one task, the batch is closed there - everything from the second one on goes into
    further batches - so that a batch, which executes one task at a time, never reorders them.
    As found there was one batch for the whole run (SplitInterleaved = FALSE). *)
 SplitInterleaved == TRUE
-RECURSIVE Segments(_, _, _)
-Segments(es, cur, acc) ==
-    IF es = <<>> THEN Append(acc, cur)
-    ELSE LET n == Head(es)
-             prevT == IF cur = <<>> THEN 0 ELSE cur[Len(cur)][2]
-         IN IF SplitInterleaved /\ n[2] # prevT /\ (\E i \in 1..Len(cur) : cur[i][2] = n[2])
-            THEN Segments(Tail(es), <<n>>, Append(acc, cur))
-            ELSE Segments(Tail(es), Append(cur, n), acc)
-RECURSIVE RunSegments(_)
-RunSegments(segs) == IF segs = <<>> THEN <<>>
-                     ELSE ByTask(TaskOrder(Head(segs), {}), Head(segs)) \o RunSegments(Tail(segs))
+(* batches of one EVOLUTIONS run: a model creation joins the batch being built; an evolution whose
+   task is already in that batch, with another task's evolution in-between, starts the next batch *)
+RECURSIVE Build(_, _, _)
+Build(us, cur, acc) ==
+    IF us = <<>> THEN Append(acc, cur)
+    ELSE LET u == Head(us)
+         IN IF u[1] = "model" THEN Build(Tail(us), [cur EXCEPT !.models = Append(@, u)], acc)
+            ELSE LET prevT == IF cur.evos = <<>> THEN 0 ELSE cur.evos[Len(cur.evos)][2]
+                     inCur == \E i \in 1..Len(cur.evos) : cur.evos[i][2] = u[2]
+                 IN IF SplitInterleaved /\ u[2] # prevT /\ inCur
+                    THEN Build(Tail(us), [models |-> <<>>, evos |-> <<u>>], Append(acc, cur))
+                    ELSE Build(Tail(us), [cur EXCEPT !.evos = Append(@, u)], acc)
+(* a batch creates all its models first and then applies its evolutions one task at a time *)
+RECURSIVE RunBatches(_)
+RunBatches(bs) == IF bs = <<>> THEN <<>>
+                  ELSE Head(bs).models \o ByTask(TaskOrder(Head(bs).evos, {}), Head(bs).evos)
+                       \o RunBatches(Tail(bs))
 (* with evolutions only there is a single run of EVOLUTIONS batches *)
 ExecOf(result) ==
     LET units == SelectSeq(result, LAMBDA n : n[1] \in {"model", "evo"})
-        models == SelectSeq(units, LAMBDA n : n[1] = "model")
-        evos == SelectSeq(units, LAMBDA n : n[1] = "evo")
-    IN models \o RunSegments(Segments(evos, <<>>, <<>>))
+    IN RunBatches(Build(units, [models |-> <<>>, evos |-> <<>>], <<>>))
 
 (* projects sampled by the harness beyond the exhaustive bound *)
 FileCfgs == JsonDeserialize(IOEnv.CFG_FILE)
@@ -188,7 +194,7 @@ FileInit == \E k \in 1..Len(FileCfgs) :
     /\ newm = [a \in Apps |-> c.newm[a]]
     /\ after = PairSet(c.after)
     /\ before = PairSet(c.before)
-    /\ eafter = { <<c.eafter[i][1], <<c.eafter[i][2][1], c.eafter[i][2][2]>>>> : i \in 1..Len(c.eafter) }
+    /\ eafter = { <<c.eafter[i][1], <<c.eafter[i][2][1], c.eafter[i][2][2]>>, c.eafter[i][3]>> : i \in 1..Len(c.eafter) }
 
 Init == /\ (IF FromFile THEN FileInit ELSE ProjInit)
         /\ ord = Ordered
@@ -210,9 +216,12 @@ Requirements ==      \* <<x, y>> : x must be executed after y
     UNION { SeqOrder(a) : a \in Apps }
     \cup UNION { UnitsOfApp(p[1]) \X UnitsOfApp(p[2]) : p \in after }
     \cup UNION { UnitsOfApp(p[2]) \X UnitsOfApp(p[1]) : p \in before }
-    \cup UNION { { <<x, <<"evo", e[2][1], e[2][2]>>>> :
-                     x \in { n \in UnitsOfApp(e[1]) : n[1] = "evo" } }
-                 : e \in { f \in eafter : f[2][2] > applied[f[2][1]] } }
+    \* the declaring evolution and every later one of its app, after the named evolution
+    \* (or, for a bare app label, after everything of that app)
+    \cup UNION { { n \in UnitsOfApp(e[1]) : n[1] = "evo" /\ n[3] >= applied[e[1]] + e[3] }
+                 \X (IF e[2][2] = 0 THEN UnitsOfApp(e[2][1])
+                     ELSE IF e[2][2] > applied[e[2][1]] THEN { <<"evo", e[2][1], e[2][2]>> } ELSE {})
+                 : e \in eafter }
 
 RECURSIVE Closure(_, _)
 Closure(R, k) == IF k = 0 THEN R
